@@ -1253,29 +1253,44 @@ func (c *lexCtx) x4BinaryReaderTotalAs(rule string) {
 			if !ok {
 				return
 			}
-			ev := ret.Results[len(ret.Results)-1]
-			if isNilConst(ev) {
-				return
-			}
-			if call, ok := ev.(*ssa.Call); ok {
-				id := callID(&call.Call)
-				if id.pkg == ttlvPath && id.recv == "ttlvReader" && (id.name == "assertType" || id.name == "Next") {
-					return
+			var sanctioned func(ev ssa.Value, d int) bool
+			sanctioned = func(ev ssa.Value, d int) bool {
+				if isNilConst(ev) {
+					return true
 				}
-			}
-			if ex, ok := ev.(*ssa.Extract); ok {
-				if call, ok := ex.Tuple.(*ssa.Call); ok {
+				if call, ok := ev.(*ssa.Call); ok {
 					id := callID(&call.Call)
-					if id.pkg == ttlvPath && id.recv == "ttlvReader" {
-						return // delegation to another typed read (Bitmask -> Integer)
-					}
-					if m == "Struct" && id.is(ttlvPath, "", "newTTLVReader") {
-						return // the nested reader's validation
+					if id.pkg == ttlvPath && id.recv == "ttlvReader" && (id.name == "assertType" || id.name == "Next") {
+						return true
 					}
 				}
+				if ex, ok := ev.(*ssa.Extract); ok {
+					if call, ok := ex.Tuple.(*ssa.Call); ok {
+						id := callID(&call.Call)
+						if id.pkg == ttlvPath && id.recv == "ttlvReader" {
+							return true // delegation to another typed read (Bitmask -> Integer)
+						}
+						if m == "Struct" && id.is(ttlvPath, "", "newTTLVReader") {
+							return true // the nested reader's validation
+						}
+					}
+				}
+				if call, ok := ev.(*ssa.Call); ok && m == "Struct" && call.Call.StaticCallee() == nil && !call.Call.IsInvoke() {
+					return true // the error of the callback that decodes the fields
+				}
+				// one error variable merged from sanctioned sources (single error exit)
+				if ph, ok := ev.(*ssa.Phi); ok && d < 4 {
+					for _, e := range ph.Edges {
+						if !sanctioned(e, d+1) {
+							return false
+						}
+					}
+					return true
+				}
+				return false
 			}
-			if call, ok := ev.(*ssa.Call); ok && m == "Struct" && call.Call.StaticCallee() == nil && !call.Call.IsInvoke() {
-				return // the error of the callback that decodes the fields
+			if sanctioned(ret.Results[len(ret.Results)-1], 0) {
+				return
 			}
 			bad = ret.Pos()
 		})
